@@ -812,6 +812,24 @@ func (e *engine) report(res *checkResult) (exit int) {
 			}
 		}
 	}
+	// preconditions in the property's own layer: proved at the static call sites inside verified functions, but a
+	// function entered by dynamic dispatch, through a function value, as a goroutine or from code that is not under
+	// contract gets them as assumptions about its caller
+	if len(e.w.db.Scopes[prop]) == 0 {
+		seenReq := map[string]bool{}
+		for _, fnName := range res.funcs {
+			ct := e.w.db.Contracts[fnName]
+			if ct == nil {
+				continue
+			}
+			for _, cl := range ct.Clauses {
+				if cl.Kind == "requires" && cl.Layer == prop && !seenReq[fnName+cl.Src] {
+					seenReq[fnName+cl.Src] = true
+					assumptions = append(assumptions, "precondition of "+fnName+" (checked at static calls from verified functions, assumed of every other caller): "+cl.Src)
+				}
+			}
+		}
+	}
 	for _, cl := range e.w.db.Invariants[prop] {
 		assumptions = append(assumptions, "state invariant of the sweep, assumed on entry to its entry point (and proved at every exit, call and loop head inside): "+cl.Src)
 	}
